@@ -505,6 +505,144 @@ def case_edited(case):
     return out
 
 
+def case_owner_default(case):
+    """The owning rank's leaf default (7) differs from the default the fibers were
+    built with (0): emptiness, counting, pruning and equality follow the rank's.
+    Cells: '-' absent, '0' a stored 0 (a value here), '7' a stored 7 (an explicit
+    default here), '1' a value."""
+    spec, = case
+    depth = 2
+    out = []
+    feats = {"rank_default_differs_from_fiber_default"}
+
+    def tree():
+        cs, ps = [], []
+        for i, row in enumerate(spec):
+            if row is None:
+                continue
+            rc = [j for j, x in enumerate(row) if x != '-']
+            cs.append(i)
+            ps.append(Fiber(rc, [int(row[j]) for j in rc]))       # the fibers' own default is 0
+        return Fiber(cs, ps)
+    exp = {}
+    for i, row in enumerate(spec):
+        if row is None:
+            continue
+        for j, x in enumerate(row):
+            if x not in '-7':
+                exp[(i, j)] = int(x)
+    if any(row is not None and '7' in row for row in spec):
+        feats.add("explicit_default")
+    try:
+        t = Tensor.fromFiber(RANK_IDS[:depth], tree(), shape=[len(spec), 2], default=7)
+        root = t.getRoot()
+        if raw_content(root, 7) != exp:
+            return out        # harness sanity: not the library's business
+        n = len(exp)
+        for fam, got in (("Tensor.countValues", t.countValues()), ("Fiber.countValues", root.countValues())):
+            if got != n:
+                out.append((fam, "value", feats, n, got))
+        if root.isEmpty() != (n == 0):
+            out.append(("isEmpty", "value", feats, n == 0, root.isEmpty()))
+        ne = root.nonEmpty()
+        if raw_content(ne, 7) != exp:
+            out.append(("nonEmpty", "content", feats, exp, raw_content(ne, 7)))
+        else:
+            for c, p in zip(ne.coords, ne.payloads):
+                if not p.coords or any(q.value == 7 for q in p.payloads):
+                    out.append(("nonEmpty", "not-pruned", feats, exp, rawtree(ne)))
+                    break
+            if not (ne == root) or not (root == ne):
+                out.append(("nonEmpty", "pruned-copy-not-equal", feats, True, False))
+            if ne.countValues() != n:
+                out.append(("nonEmpty", "pruned-copy-count", feats, n, ne.countValues()))
+        dc = copy.deepcopy(t)
+        if not (dc == t) or not (t == dc):
+            out.append(("deepcopy", "copy-not-equal", feats, True, False))
+        if n >= 2:
+            core.CUR.nt("owner_default")
+    except Exception as ex:
+        _exc(out, "owner_default", feats, ex)
+    return out
+
+
+def shard_owner_default(acc, shard, nshards, params):
+    rows = [None] + list(itertools.product("-071", repeat=2))
+    drive(acc, "owner_default", case_owner_default, ((sp,) for sp in itertools.product(rows, repeat=2)),
+          shard, nshards, family="owner-default-differs[T2(2,2,{-,0,7,1}), rank default 7, fibers built with default 0]")
+
+
+def case_observe_mutate(case):
+    """Observe a tree (isEmpty / == / countValues / nonEmpty), change one stored
+    leaf in place through its payload box, observe again: the second answers
+    follow the new content (no stale answer is remembered)."""
+    spec, depth, which, newval = case
+    out = []
+    feats = spec_feats(spec, depth) | {"observe-mutate-observe"}
+    try:
+        t = Tensor.fromFiber(RANK_IDS[:depth], mk(spec, depth, 0), default=0)
+        root = t.getRoot()
+        boxes = []
+
+        def rec(f, pt):
+            for c, p in zip(f.coords, f.payloads):
+                if isinstance(p, Fiber):
+                    rec(p, pt + (c,))
+                else:
+                    boxes.append((pt + (c,), p))
+        rec(root, ())
+        if which >= len(boxes):
+            return out
+        twin = copy.deepcopy(t)
+        # first observation
+        root.isEmpty(), t.countValues(), root.nonEmpty(), (t == twin)
+        for _, f in _all_fibers(root):
+            f.isEmpty()
+        pt, box = boxes[which]
+        box <<= newval
+        exp = raw_content(root, 0)
+        n = len(exp)
+        if root.isEmpty() != (n == 0):
+            out.append(("isEmpty", "stale-after-in-place-update", feats, n == 0, root.isEmpty()))
+        if t.countValues() != n:
+            out.append(("Tensor.countValues", "stale-after-in-place-update", feats, n, t.countValues()))
+        ne = root.nonEmpty()
+        if raw_content(ne, 0) != exp:
+            out.append(("nonEmpty", "stale-after-in-place-update", feats, exp, raw_content(ne, 0)))
+        same = raw_content(twin.getRoot(), 0) == exp
+        if (t == twin) != same or (twin == t) != same:
+            out.append(("tensor==", "stale-after-in-place-update", feats, same, (t == twin)))
+        core.CUR.nt("observe_mutate")
+    except Exception as ex:
+        _exc(out, "observe_mutate", feats, ex)
+    return out
+
+
+def _all_fibers(f, prefix=()):
+    out = [(prefix, f)]
+    for c, p in zip(f.coords, f.payloads):
+        if isinstance(p, Fiber):
+            out.extend(_all_fibers(p, prefix + (c,)))
+    return out
+
+
+def shard_observe_mutate(acc, shard, nshards, params):
+    specs2, _ = universe((2, 2), A1)
+    specs1, _ = universe((3,), A12)
+
+    def gen():
+        for spec in specs1:
+            for w in range(3):
+                for v in (0, 5):
+                    yield (spec, 1, w, v)
+        for spec in specs2:
+            for w in range(4):
+                for v in (0, 5):
+                    yield (spec, 2, w, v)
+    drive(acc, "observe_mutate", case_observe_mutate, gen(), shard, nshards,
+          family="observe-mutate-observe[F1(3), T2(2,2)]")
+
+
 def shard_edited(acc, shard, nshards, params):
     alpha, dflt = params
 
@@ -523,7 +661,7 @@ def shard_edited(acc, shard, nshards, params):
 
 
 CASES = {"pair": case_pair, "triple": case_triple, "single": case_single, "payload_empty": case_payload_empty,
-         "edited": case_edited}
+         "edited": case_edited, "owner_default": case_owner_default, "observe_mutate": case_observe_mutate}
 
 A12 = "-d12"     # absent / explicit default / 1 / 2
 A1 = "-d1"
@@ -568,6 +706,8 @@ def run(ctx):
         ctx.shards(shard_payload_empty, None, nshards=1, serial=True)
     if not getattr(ctx, "only", None) or "edited" in ctx.only:
         ctx.shards(shard_edited, (A12, 0))
+        ctx.shards(shard_owner_default, None)
+        ctx.shards(shard_observe_mutate, None)
         ctx.shards(shard_edited, (A7, 7))
     for d, a, v, df in singles:
         if want("single"):
